@@ -189,6 +189,14 @@ func (cs *Contracts) parseFile(path string) error {
 			curFn, curLemma = fc, nil
 			curClauses = &fc.Clauses
 			last = nil
+		case kw == "functype":
+			// functype Name : contract of calls through values of the named function type
+			key := strings.TrimSpace(rest)
+			fc := &FuncContract{Pkg: pkg, Key: pkg + "." + key + ".call", File: path, Line: ln}
+			cs.Ifaces[fc.Key] = fc
+			curFn, curLemma = fc, nil
+			curClauses = &fc.Clauses
+			last = nil
 		case kw == "iface":
 			// iface Name.method
 			key := rest
